@@ -18,11 +18,16 @@ MANIFEST = {
                  "(model vs real GetOperationPerVisibility / generated file set) + direct observation of the generated C++ (tokenizer, g++ -fsyntax-only)",
     "text": "Theorems (Props/C19.v) over ALL abstract class diagrams: C19_decl_def (for every class and every fuel that does not run out: the "
             "operations emitted for the header's three visibility sections are a permutation of those emitted for the source file, stated as "
-            "equal counts for every predicate, hence every declaration has exactly one definition when signatures are distinct), "
-            "C19_realised (every operation of a realised pure virtual interface is emitted for the realising class, defined under its name, "
-            "declared 'override'), C19_cycle_refuted (a cyclic realisation exhausts every fuel: Python RecursionError). The model is tied to the "
-            "code by translator/uml.py (branch conditions, template filters, file-name dictionaries, template directory listing regenerated "
-            "from umlgen.py) and by differential runs on the shipped diagrams and mutants of them.",
+            "equal counts for every predicate) and C19_decl_def_acyclic (for acyclic, closed diagrams fuel = number of classes never runs out, so "
+            "both sides return and agree; C19_acyclic_excludes_cycles: the boolean acyclic excludes every cycle), C19_realised (every operation "
+            "of a realised pure virtual interface is emitted for the realising class, defined under its name, declared 'override', unless the "
+            "class declares that signature itself), C19_files (under files_hyp = well-formed names and distinct paths, both evaluated on every "
+            "generated input, the code model has exactly one header per generated element and one source per concrete class, in the folder chain "
+            "of the namespace when requested; C19_files_meaning, C19_folder_chain), C19_namespace_balanced (ns_begin ++ body ++ ns_end is exactly "
+            "the properly nested namespace chain and names it), C19_cycle_refuted (a cyclic realisation exhausts every fuel: Python "
+            "RecursionError). The model is tied to the code by translator/uml.py (branch conditions, template filters, file-name dictionaries, "
+            "template directory listing regenerated from umlgen.py) and by differential runs on the shipped diagrams and mutants of them "
+            "(GetOperationPerVisibility vs ops_of with the theorem's fuel, generated file set vs files_of and vs Spec.expected_files).",
     "note": "Input adaptor not modelled: kojen's blob parser produces the class diagram objects; parameter type/name/default rendering is taken "
             "from LanguageCPP's own helpers. 'Accepted by a C++ compiler' is an observation (g++ 14 -fsyntax-only), not a theorem. C#: file set and "
             "crash observation only (no C# compiler). Known findings K-C19-*.",
@@ -34,8 +39,9 @@ RULE = ("the two shipped class diagrams and mutants of them (1-4 random edits of
 ASSUMPTIONS = [
     "operation visibilities are public/protected/private (a 'package' operation is defined but never declared: K-C19-4)",
     "no realisation cycle among pure virtual interfaces (C19_cycle_refuted: RecursionError otherwise)",
-    "class names without '.' and '/', distinct output paths (two classes of one name collide when namespace folders are off: K-C19-5)",
-    "multiplicity 1 of a definition needs distinct signatures per class: an operation both declared in the class and realised from an interface, or reached through two interfaces, is emitted twice (K-C19-1)",
+    "files_hyp: class names non-empty without '.' and '/', namespace not ending in a separator, distinct output paths (two classes of one name in different packages collide when namespace folders are off: K-C19-5 is exactly distinct_paths = false)",
+    "multiplicity 1 of a definition needs distinct signatures per class: an operation reached through two realisation paths is emitted twice (K-C19-1b); an operation both declared in the class and realised is emitted once since the fix (K-C19-1)",
+    "no inheritance entry points to a class outside the diagram (closed; KeyError otherwise)",
 ]
 TRUSTED = ["Coq 8.16.1 kernel (coqc; coqchk in the thorough tier)", "axioms: none", "translator/uml.py", "extraction: ExtrOcamlBasic + ExtrOcamlNativeString",
            "input adaptor (not modelled): vppclassdiagram's blob parser and LanguageCPP.GetTypeAndNameFromMultiplicityAndModifier / GetDefaultFormatFromMultiplicityAndModifier",
@@ -67,7 +73,8 @@ def function_level(ctx, cd, label):
                 real = None
             except KeyError:
                 real = None
-            m = ctx.km.call("uml_ops", str(FUEL), D, vis, cid)
+            # fuel = number of classes: what C19_decl_def_acyclic proves sufficient (a cyclic diagram exhausts any fuel)
+            m = ctx.km.call("uml_ops", str(len(cd.classes)), D, vis, cid)
             model = [(e[1] if is_impl else e[0]).decode("utf-8") for e in m[0]] if m else None
             if real != model:
                 ctx.tie_broken("correspondence GetOperationPerVisibility vs Uml.ops_of (%s, %s, %s)" % (c.NAME, "impl" if is_impl else "decl", vis),
@@ -109,11 +116,19 @@ def observe(ctx, cd, label, nsf, dclspc, edits, compile_all):
         D = us.abstract(cd, lang)
     except Exception:  # noqa
         pass
+    acyclic = hyp = None
+    if ctx.km is not None and D is not None:
+        acyclic = ctx.km.call("uml_acyclic", D) == b"1" and ctx.km.call("uml_closed", D) == b"1"
+        hyp = [x == b"1" for x in ctx.km.call("uml_files_hyp", nsf, D)]      # [files_hyp, all path_ok, distinct_paths]
+        ctx.count("acyclic=%s files_hyp=%s" % (acyclic, hyp[0]))
     with kj.scratch("kjv-uml-") as out:
         try:
             ret = us.generate(cd, out, "cpp", nsf, dclspc)
         except RecursionError:
-            fail("RecursionError in GetOperationPerVisibility", "uml:%s:realisation-cycle" % label)
+            if acyclic:
+                fail("RecursionError although the diagram is acyclic and closed", "uml:%s:acyclic-no-return" % label, finding_class="uml:acyclic-no-return")
+            else:
+                fail("RecursionError in GetOperationPerVisibility", "uml:%s:realisation-cycle" % label)
             return fails, False
         except Exception as e:  # noqa
             fail("generator crashed: %s: %s" % (type(e).__name__, e), "uml:%s:crash:%s" % (label, type(e).__name__))
@@ -124,6 +139,14 @@ def observe(ctx, cd, label, nsf, dclspc, edits, compile_all):
             ctx.count("outside_domain:two-elements-of-one-name-in-one-namespace")
             return [], False
         clash = [p for p, _same in clash]
+        if hyp is not None and hyp[1] and (hyp[2] == bool(clash)):
+            ctx.tie_broken("distinct_paths (Spec/UmlSpec.v) disagrees with the harness's reading of a path collision",
+                           {"diagram": label, "edits": edits, "nsf": nsf, "distinct_paths": hyp[2], "collisions": clash})
+        if hyp is not None and hyp[0]:
+            want = sorted(f[0].decode("utf-8") for f in ctx.km.call("uml_expected_files", nsf, D))
+            if want != sorted(tree):
+                fail("files_hyp holds but the generated files differ from Spec.expected_files: %s vs %s" % (sorted(tree), want),
+                     "uml:%s:file-set" % label)
         for p in clash:
             fail("two elements of different namespaces are generated into the same file %s" % p, "uml:%s:path-collision" % label, file=p)
         missing = sorted(set(exp) - set(tree))
@@ -156,7 +179,10 @@ def observe(ctx, cd, label, nsf, dclspc, edits, compile_all):
                     if fcount.get(k, 0) != n or n != 1:
                         fail("%s: operation %s%r declared %d time(s), defined %d time(s)" % (c.NAME, k[0], k[1], n, fcount.get(k, 0)),
                              "uml:%s:%s:%s" % (label, c.NAME, k[0]), file=path,
-                             finding_class="uml:operation-emitted-twice" if (n > 1 and fcount.get(k, 0) == n) else "uml:declaration-definition-mismatch")
+                             finding_class=("uml:declared-and-realised-emitted-twice"      # repaired (K-C19-1): must not come back
+                                            if sum(1 for o in c.OPERATIONS if o.NAME.strip() == k[0] and len(o.PARAMETERS) == len(k[1])) == 1
+                                            else "uml:operation-emitted-twice") if (n > 1 and fcount.get(k, 0) == n)
+                             else "uml:declaration-definition-mismatch")
                 for k, n in fcount.items():
                     if k not in dcount:
                         fail("%s: operation %s%r defined but not declared" % (c.NAME, k[0], k[1]), "uml:%s:%s:%s" % (label, c.NAME, k[0]), file=path,
@@ -171,7 +197,8 @@ def observe(ctx, cd, label, nsf, dclspc, edits, compile_all):
             hp = [p for p, x in exp.items() if x is c and p.endswith(".h")]
             if not hp or hp[0] not in tree:
                 continue
-            have = collections.Counter((d["name"], len(d["params"])) for d in us.declarations(tree[hp[0]]) if d["override"])
+            # overridden = declared in the realising class's header (marked override, or declared by the class itself)
+            have = collections.Counter((d["name"], len(d["params"])) for d in us.declarations(tree[hp[0]]))
             for op in i.OPERATIONS:
                 if op.VISIBILITY not in ("public", "protected", "private"):
                     continue
